@@ -17,19 +17,20 @@ confirm)
   dir=$1; crate=$2; demo_src=$3; demo_dest=$4; shift 4
   W=/var/tmp/mv-confirm/repo; T=/var/tmp/mv-confirm/target
   mkdir -p /var/tmp/mv-confirm
+  export CARGO_INCREMENTAL=0 CARGO_PROFILE_DEV_DEBUG=0 CARGO_PROFILE_TEST_DEBUG=0
   if [ ! -e "$W/.git" ]; then git -C /repo worktree add --detach "$W" HEAD >/dev/null 2>&1; fi
   git -C "$W" checkout -q --detach "$(git -C /repo rev-parse HEAD)"; git -C "$W" checkout -q -- .; git -C "$W" clean -fdq
   log="$dir/confirm.log"; : > "$log"
   echo "repo HEAD $(git -C /repo rev-parse --short HEAD)" >> "$log"
   git -C "$W" apply --check "$dir/patch.diff" && echo "1. patch applies: yes" >> "$log" || { echo "1. patch applies: NO" >> "$log"; cat "$log"; exit 1; }
   mkdir -p "$(dirname "$W/$demo_dest")"; cp "$dir/$demo_src" "$W/$demo_dest"
-  ( cd "$W" && CARGO_TARGET_DIR=$T cargo test --offline -p "$crate" "$@" 2>&1 | grep -E "^test result|FAILED|panicked|error(\[|:)" | head -5 ) > /tmp/confirm.$$ 2>&1
+  ( cd "$W" && CARGO_TARGET_DIR=$T cargo test --offline -p "$crate" ${SEED_FEATURES:+--features $SEED_FEATURES} "$@" 2>&1 | grep -E "^test result|FAILED|panicked|error(\[|:)" | head -5 ) > /tmp/confirm.$$ 2>&1
   echo "2. demo WITHOUT the patch: $(tr '\n' ' ' < /tmp/confirm.$$)" >> "$log"
   git -C "$W" apply "$dir/patch.diff"
-  ( cd "$W" && CARGO_TARGET_DIR=$T cargo test --offline -p "$crate" "$@" 2>&1 | grep -E "^test result|FAILED|panicked|error(\[|:)" | head -5 ) > /tmp/confirm.$$ 2>&1
+  ( cd "$W" && CARGO_TARGET_DIR=$T cargo test --offline -p "$crate" ${SEED_FEATURES:+--features $SEED_FEATURES} "$@" 2>&1 | grep -E "^test result|FAILED|panicked|error(\[|:)" | head -5 ) > /tmp/confirm.$$ 2>&1
   echo "3. demo WITH the patch: $(tr '\n' ' ' < /tmp/confirm.$$ | cut -c1-600)" >> "$log"
   rm -f "$W/$demo_dest"
-  ( cd "$W" && CARGO_TARGET_DIR=$T cargo test --offline -p "$crate" 2>&1 | grep -E "^test result|FAILED|failed" | head -12 ) > /tmp/confirm.$$ 2>&1
+  ( cd "$W" && CARGO_TARGET_DIR=$T cargo test --offline -p "$crate" ${SEED_FEATURES:+--features $SEED_FEATURES} 2>&1 | grep -E "^test result|FAILED|failed" | head -12 ) > /tmp/confirm.$$ 2>&1
   echo "4. existing tests of $crate WITH the patch: $(tr '\n' ' ' < /tmp/confirm.$$)" >> "$log"
   git -C "$W" checkout -q -- .; git -C "$W" clean -fdq; rm -f /tmp/confirm.$$
   cat "$log"
